@@ -22,6 +22,7 @@ import (
 	"sort"
 	"strings"
 	"sync"
+	"time"
 
 	"github.com/33cn/chain33/common/address"
 	"github.com/33cn/chain33/common/crypto"
@@ -162,7 +163,7 @@ func run(c *lib.Ctx) {
 		"negative block heights mean 'no height context' in crypto.Load and are not heights",
 		"a panic inside CheckSign on a mutant is a rejection (counted)")
 	cfgs := configs(c)
-	n := c.N(12, 260)
+	n := c.N(12, 200)
 	outs := make([]*childOut, len(cfgs))
 	var mu sync.Mutex
 	lib.Parallel(len(cfgs), 4, func(i int) {
@@ -173,7 +174,7 @@ func run(c *lib.Ctx) {
 			}
 			only = c.OnlyIdx % cfgStride
 		}
-		res := c.Child("cfg", childIn{Seed: c.Seed, Cfg: cfgs[i], CfgI: i, N: n, Only: only}, lib.ChildOpts{})
+		res := c.Child("cfg", childIn{Seed: c.Seed, Cfg: cfgs[i], CfgI: i, N: n, Only: only}, lib.ChildOpts{Timeout: 45 * time.Minute})
 		var o childOut
 		if res.Died || res.TimedOut || json.Unmarshal(res.Out, &o) != nil {
 			c.Inconclusive("child for configuration %s failed: exit=%d timeout=%v %s", cfgs[i].Name, res.ExitCode, res.TimedOut, lib.ShortList(strings.Split(res.Stderr, "\n"), 15))
